@@ -295,7 +295,7 @@ func (m *Map) Range(f func(key, value any) bool) {
 
 // WaitGroup replaces sync.WaitGroup.
 type WaitGroup struct {
-	n int // scheduler-owned in task mode
+	n    int // scheduler-owned in task mode
 	real sync.WaitGroup
 }
 
